@@ -6,21 +6,49 @@ AST and TLC model-checks the program under the TLA+ semantics spec/WuffsCore.tla
 for all inputs x call histories x suspension schedules of a bounded domain, with
 the safety monitor (NoFault) and the exported ranges (ClaimedRanges) as
 invariants."""
-import wcorepipe
+import random, threading
+import wcorepipe, wwide
 from vlib import ToolingError
 
 META = {
     "level": "model_checking",
-    "technique": "TLC model-checks every accepted program (corpus + near-miss mutants + generated) under the TLA+ operational semantics WuffsCore.tla with the safety monitor and the compiler's exported MBounds as invariants (static claims exported through a verif-tagged exporter)",
+    "technique": "TLC (and, for full-width operands, Apalache) model-checks every accepted program (corpus + near-miss mutants + generated) under the TLA+ operational semantics WuffsCore.tla with the safety monitor and the compiler's exported MBounds as invariants (static claims exported through a verif-tagged exporter)",
     "text": "For each accepted program TLC explores every argument choice, every history of <= 2-3 public calls, every input of the bounded domain and every suspension schedule; in every reachable state the monitor (index, slice, overflow, conversion, store, division, shift, recursion, argument refinement) and the checker's claimed range of every evaluated expression are checked. Exhaustive inside the bounds, nothing outside them.",
-    "note": "Trusted: the TLA+ semantics (written from the language documentation), the mechanical AST exporter, TLC. Values stay below 2^30 (8/16-bit types free, 32/64-bit only inside the window); programs outside the interpreted core language are counted, not checked. For std itself (60k lines, outside the model's reach) the same claims are asserted at run time by the checked build of hook H3, which runs under C03 (evidence/C03.json, coverage.checked_build): MBounds are not asserted inside loop conditions (they hold on entry only; index and slice bounds are), I/O built-in pre-conditions and null pointers are left to the sanitizers.",
+    "note": "Trusted: the TLA+ semantics (written from the language documentation), the mechanical AST exporter, TLC, Apalache. Under TLC values stay below 2^30 (8/16-bit types free, 32/64-bit only inside the window); the full-width part (lib/wwide.py: straight-line operator programs with operands at 2^31/2^32/2^63/2^64, every claimed range an Apalache invariant over all operand pairs, with a falsified-claim negative control) covers the arithmetic operators only; programs outside the interpreted core language are counted, not checked. For std itself (60k lines, outside the model's reach) the same claims are asserted at run time by the checked build of hook H3, which runs under C03 (evidence/C03.json, coverage.checked_build): MBounds are not asserted inside loop conditions (they hold on entry only; index and slice bounds are), I/O built-in pre-conditions and null pointers are left to the sanitizers.",
 }
 
 
 def run(ctx):
-    b, viols, hists, stats, st = wcorepipe.model_check(ctx, "C01", "ideal", "oneshot" if ctx.tier == "quick" else "split", ["NoFault", "ClaimedRanges"], {"viol", "range"})
+    # full width (DESIGN 3): the claimed ranges of operator-grid programs whose operands sit at 2^31, 2^32, 2^63, 2^64,
+    # decided for ALL operand pairs by Apalache (unbounded integers) - TLC's 32-bit integers cannot hold them.
+    # It runs beside the TLC part.
+    wexport = ctx.go_build("./cmd/wexport", tags="verif")
+    wprogs = wwide.wide_programs(random.Random(ctx.seed), per_op=2 if ctx.tier == "quick" else 8)
+    box = {}
+
+    def wide():
+        try:
+            box["r"] = wwide.run(ctx, wexport, wprogs, par=4 if ctx.tier == "quick" else 6, batch=12)
+        except BaseException as e:
+            box["e"] = e
+    th = threading.Thread(target=wide)
+    th.start()
+    try:
+        b, viols, hists, stats, st = wcorepipe.model_check(ctx, "C01", "ideal", "oneshot" if ctx.tier == "quick" else "split", ["NoFault", "ClaimedRanges"], {"viol", "range"})
+    finally:
+        th.join()
+    if "e" in box:
+        raise box["e"]
     wcorepipe.report_model_violations(ctx, "C01", viols)
+    wstats, wref = box["r"]
+    ctx.log("full-width: %s" % wstats)
+    for r in wref:
+        ctx.violation("C01: accepted program `%s` function %s: a range the checker claims (or the return type) is refuted at full width by Apalache\n--- source ---\n%s\n--- counterexample ---\n%s" % (
+            r["program"], r["function"], r["source"], r["counterexample"][:1500]),
+            {"key": "wide:%s:%s" % (r["program"], r["function"]), "program": r["program"], "source": r["source"], "module": r["module"],
+             "counterexample": r["counterexample"], "claims": r["claims"], "params": r["params"]})
     cov = wcorepipe.coverage_common(ctx, b, stats, st)
+    cov["full_width_apalache"] = wstats
     cov["traces_validated_against_impl"] = 0
     cov["samples"] = [{"program": p["name"], "origin": p["origin"], "functions": [f["name"] + f["eff"] for f in p["funcs"]],
                        "inputs": p["inputs"][:3]} for p in b.progs[:6]]
